@@ -265,6 +265,15 @@ class Source:
                 start = t.start
                 idx -= 1
                 continue
+            if t.kind == "comment":
+                # an ordinary comment between attributes (e.g. trailing `// ...` after #[strum(..)]): skip it, but it
+                # only becomes part of the item if an attribute / doc comment precedes it
+                j = idx - 1
+                while j >= 0 and self.toks[j].kind == "comment" and not self.toks[j].text.startswith("///"):
+                    j -= 1
+                if j >= 0 and ((self.toks[j].kind == "punct" and self.toks[j].text == "]") or self.toks[j].kind == "comment"):
+                    idx -= 1
+                    continue
             break
         return start
 
